@@ -24,7 +24,7 @@ def place(wt):
     notes = open(src + "/notes.md").read() if os.path.exists(src + "/notes.md") else ""
     dest = {"lisp": ".", "lisp_test": ".", "printer_test": "printer", "printer": "printer", "reader_test": "reader", "reader": "reader",
             "call": "lib/call", "call_test": "lib/call", "env": "env", "env_test": "env", "concurrent": "lib/concurrent", "concurrent_test": "lib/concurrent",
-            "core": "lib/core", "core_test": "lib/core", "types": "types", "types_test": "types", "repl": "repl", "repl_test": "repl", "main": "zdemo"}.get(pkg, "z" + pkg)
+            "core": "lib/core", "core_test": "lib/core", "types": "types", "types_test": "types", "repl": "repl", "repl_test": "repl", "main": "zdemo", "nscore": "lib/core/nscore", "nscore_test": "lib/core/nscore"}.get(pkg, "z" + pkg)
     os.makedirs(os.path.join(wt, dest), exist_ok=True)
     for f in demos:
         name = os.path.basename(f)
